@@ -13,17 +13,17 @@ import (
 
 // Event is one backend callback as seen by the recording backend.
 type Event struct {
-	Seq     int    `json:"seq"`
-	Sess    int    `json:"sess"` // session identity (1,2,…); 0 for NewSession failures
-	Kind    string `json:"kind"` // NewSession Mail Rcpt Data LMTPData Reset Logout AuthMechs Auth Next SetStatus
-	Arg     string `json:"arg,omitempty"`
-	Opts    string `json:"opts,omitempty"`
-	Body    []byte `json:"body,omitempty"`
-	ReadErr string `json:"read_err,omitempty"` // "" not finished, "EOF", or the error text
-	Ret     string `json:"ret,omitempty"`
-	Helo    string `json:"helo,omitempty"`
-	TLS     bool   `json:"tls,omitempty"`
-	Ended   bool   `json:"ended,omitempty"`
+	Seq     int      `json:"seq"`
+	Sess    int      `json:"sess"` // session identity (1,2,…); 0 for NewSession failures
+	Kind    string   `json:"kind"` // NewSession Mail Rcpt Data LMTPData Reset Logout AuthMechs Auth Next SetStatus
+	Arg     string   `json:"arg,omitempty"`
+	Opts    string   `json:"opts,omitempty"`
+	Body    []byte   `json:"body,omitempty"`
+	ReadErr string   `json:"read_err,omitempty"` // "" not finished, "EOF", or the error text
+	Ret     string   `json:"ret,omitempty"`
+	Helo    string   `json:"helo,omitempty"`
+	TLS     bool     `json:"tls,omitempty"`
+	Ended   bool     `json:"ended,omitempty"`
 	Rcpts   []string `json:"rcpts,omitempty"` // envelope at the time of Data (as the backend saw it)
 	From    string   `json:"from,omitempty"`
 }
@@ -37,12 +37,12 @@ type StatusCall struct {
 
 // DataPlan says what the backend does with one message.
 type DataPlan struct {
-	Buf      int   // read buffer size; 0 means 4096
-	Max      int   // read at most Max octets, then stop reading; <0 means read to the end
-	Verdict  error // return value when reading ended as planned (EOF or Max reached)
-	Panic    bool  // panic after reading
-	Status   []StatusCall
-	KeepErr  bool // return Verdict even if the reader failed
+	Buf     int   // read buffer size; 0 means 4096
+	Max     int   // read at most Max octets, then stop reading; <0 means read to the end
+	Verdict error // return value when reading ended as planned (EOF or Max reached)
+	Panic   bool  // panic after reading
+	Status  []StatusCall
+	KeepErr bool // return Verdict even if the reader failed
 }
 
 var ReadAll = DataPlan{Max: -1}
